@@ -624,6 +624,7 @@ int static_watch_init(void)
                 unsigned long a, n; char sec[100], obj[200];
                 if (sscanf(line, "%lx %lx %99s %199s", &a, &n, sec, obj) != 4) continue;
                 if (!strncmp(sec, ".tbss", 5) || !strncmp(sec, ".tdata", 6)) continue;
+                if (!strncmp(sec, ".text", 5)) continue;        /* writable only while the coverage measurement (asmcov) has its int3 bytes in it */
                 int w = 0; for (int i = 0; i < nwm; i++) if (a >= wm[i].lo && a + n <= wm[i].hi) w = 1;
                 if (!w) continue;
                 if (nwsecs == cap) { cap = cap ? cap * 2 : 256; wsecs = realloc(wsecs, (size_t) cap * sizeof *wsecs); }
